@@ -4,6 +4,7 @@ import (
 	"bytes"
 	"encoding/binary"
 	"fmt"
+	"os"
 	"sort"
 	"strings"
 	"time"
@@ -34,6 +35,8 @@ type optSpec struct {
 	Sampling     int  `json:"sampling"` // IteratorSamplingRate; 0 = seek compaction disabled
 	NoLargeTxn   bool `json:"no_large_batch_txn"`
 	NoTableComp  bool `json:"no_table_compaction"` // level-0-only layout (see d5 note in main.go)
+	// never generated; set by hand in findings/*.json to reproduce the stale-block-cache defect
+	KeepRemovedBlocks bool `json:"keep_removed_blocks,omitempty"`
 }
 
 type bop struct {
@@ -79,6 +82,10 @@ func (o optSpec) build(cmp comparer.Comparer) *opt.Options {
 		DisableLargeBatchTransaction: o.NoLargeTxn,
 		NoSync:                       true,
 		Strict:                       opt.StrictAll,
+		// Without it, a table file number reused after Transaction.Discard (tOps.remove ->
+		// reuseFileNum) is served from the blocks the block cache still holds for the removed
+		// table: a defect of the write path / cache (not of the iterators), reported as a finding.
+		BlockCacheEvictRemoved: !o.KeepRemovedBlocks,
 	}
 	if o.Snappy {
 		r.Compression = opt.SnappyCompression
@@ -414,6 +421,12 @@ type dbExec struct {
 	label      string
 	nontrivial int
 	walks      int
+	// failure capture
+	vdesc    string
+	failOp   int
+	failCall int
+	curOp    int
+	walkFail bool // the failure is a disagreement of a movement call (shrinkable)
 }
 
 func copyMap(m map[string][]byte) map[string][]byte {
@@ -511,8 +524,12 @@ func sameKVs(a, b []kv) bool {
 	return true
 }
 
+// violate records the (first) failure of this program; it is reported, after shrinking, by runDBCase
 func (x *dbExec) violate(desc string) {
-	x.res.Violate(fmt.Sprintf("DB iterator (%s, comparer %d): %s", x.label, x.c.Cid, desc), x.c)
+	if x.vdesc == "" {
+		x.vdesc = fmt.Sprintf("DB iterator (%s, comparer %d): %s", x.label, x.c.Cid, desc)
+		x.failOp = x.curOp
+	}
 }
 
 func (x *dbExec) open() error {
@@ -526,6 +543,16 @@ func (x *dbExec) open() error {
 
 func (x *dbExec) settle() {
 	if x.c.Settled && x.tr == nil {
+		leveldb.VerifWaitCompaction(x.db)
+	}
+}
+
+// settleAlways: before opening a transaction (explicitly, or implicitly by a batch larger than
+// the write buffer).  A transaction opened while a frozen memdb is still being flushed records
+// a sequence number that later makes the journal unreadable / loses writes (defect D6 of
+// DESIGN.md 2.3, properties C04/C11): not an iterator matter, so the trigger is not generated.
+func (x *dbExec) settleAlways() {
+	if x.tr == nil {
 		leveldb.VerifWaitCompaction(x.db)
 	}
 }
@@ -559,9 +586,21 @@ func (x *dbExec) run() (ok bool) {
 		x.violate(what + ": " + err.Error())
 		ok = false
 	}
-	for _, o := range x.c.Ops {
+	for oi, o := range x.c.Ops {
 		if !ok {
 			return
+		}
+		x.curOp = oi
+		// programs produced by shrinking may be ill-formed: skip what cannot be executed
+		switch o.T {
+		case "put", "del", "batch", "compact", "reopen", "tr_open":
+			if x.tr != nil {
+				continue
+			}
+		case "tr_put", "tr_del", "tr_batch", "tr_commit", "tr_discard":
+			if x.tr == nil {
+				continue
+			}
 		}
 		switch o.T {
 		case "put":
@@ -577,6 +616,7 @@ func (x *dbExec) run() (ok bool) {
 			delete(x.model, string(o.K))
 			x.settle()
 		case "batch":
+			x.settleAlways()
 			if err := x.db.Write(mkBatch(o.Batch), nil); err != nil {
 				fail("Write", err)
 			}
@@ -609,6 +649,7 @@ func (x *dbExec) run() (ok bool) {
 				delete(x.smodel, o.ID)
 			}
 		case "tr_open":
+			x.settleAlways()
 			tr, err := x.db.OpenTransaction()
 			if err != nil {
 				fail("OpenTransaction", err)
@@ -637,10 +678,27 @@ func (x *dbExec) run() (ok bool) {
 			x.model, x.tr, x.trm = x.trm, nil, nil
 			x.settle()
 		case "tr_discard":
+			for id, is := range x.iters {
+				if is.view == "tr" {
+					x.emitK(is)
+					is.it.Release()
+					delete(x.iters, id)
+				}
+			}
 			x.tr.Discard()
 			x.tr, x.trm = nil, nil
 			x.settle()
 		case "reopen":
+			for id, is := range x.iters {
+				x.emitK(is)
+				is.it.Release()
+				delete(x.iters, id)
+			}
+			for id, sn := range x.snaps {
+				sn.Release()
+				delete(x.snaps, id)
+				delete(x.smodel, id)
+			}
 			if err := x.db.Close(); err != nil {
 				fail("Close", err)
 				return
@@ -727,7 +785,10 @@ func (x *dbExec) iterNew(o op) bool {
 	lr, heads := liveFromRaw(is.raw, is.seq, x.cmp, o.Start, o.Limit)
 	is.heads = heads
 	if !sameKVs(lr, is.exp) {
-		x.violate(fmt.Sprintf("view %s: the internal entries of the DB (%d entries, seq %d) amount to %d live pairs, the write history to %d", o.View, len(is.raw), is.seq, len(lr), len(is.exp)))
+		if x.vdesc == "" {
+			x.walkFail = true // deterministic when the program is settled: let the shrinker try
+		}
+		x.violate(fmt.Sprintf("view %s: the internal entries of the DB (%d entries, seq %d) amount to %d live pairs, the write history to %d; first difference: %s", o.View, len(is.raw), is.seq, len(lr), len(is.exp), firstDiff(lr, is.exp)))
 		return false
 	}
 	x.res.Count("db_iter_"+strings.SplitN(o.View, ":", 2)[0], 1)
@@ -767,6 +828,9 @@ func (x *dbExec) iterWalk(o op) bool {
 	is.poss = append(is.poss, wr.Positions...)
 	if wr.Mismatch != "" {
 		is.failed = true
+		if x.vdesc == "" && !strings.HasPrefix(wr.Mismatch, "panic") {
+			x.walkFail, x.failCall = true, wr.At
+		}
 		x.violate(fmt.Sprintf("view %s range [%s,%s) over %d live pairs (%d internal entries, %d sources): %s  [calls before it on this iterator: %d]",
 			is.view, hx(is.start), hx(is.limit), len(is.exp), len(is.raw), is.nsources, wr.Mismatch, base))
 		return false
@@ -878,9 +942,14 @@ func (x *dbExec) emitK(is *iterState) {
 	x.res.Count("k_dbiter_cases", 1)
 }
 
+func execDB(c *dbCase, res *vlib.Result, label string, kcases *[]string, kmax, kmoves int, limit time.Duration) (x *dbExec, hung bool, pan interface{}) {
+	x = &dbExec{c: c, cmp: vlib.ComparerByID(c.Cid), res: res, kcases: kcases, kmax: kmax, kmoves: kmoves, label: label, failCall: -1}
+	hung, pan = runGuarded(limit, func() { x.run() })
+	return
+}
+
 func runDBCase(c *dbCase, res *vlib.Result, label string, kcases *[]string, kmax, kmoves int) (ok bool, walks, nontrivial int) {
-	x := &dbExec{c: c, cmp: vlib.ComparerByID(c.Cid), res: res, kcases: kcases, kmax: kmax, kmoves: kmoves, label: label}
-	hung, pan := runGuarded(300*time.Second, func() { ok = x.run() })
+	x, hung, pan := execDB(c, res, label, kcases, kmax, kmoves, 300*time.Second)
 	if hung {
 		res.Violate(fmt.Sprintf("DB program (%s): did not finish within 300s", label), c)
 		return false, x.walks, x.nontrivial
@@ -889,5 +958,88 @@ func runDBCase(c *dbCase, res *vlib.Result, label string, kcases *[]string, kmax
 		res.Violate(fmt.Sprintf("DB program (%s): panic %v", label, pan), c)
 		return false, x.walks, x.nontrivial
 	}
-	return ok, x.walks, x.nontrivial
+	if x.vdesc == "" {
+		return true, x.walks, x.nontrivial
+	}
+	rc, desc := c, x.vdesc
+	if x.walkFail && res.NViolations() < 6 {
+		if sc, sd := shrinkDB(c, x.failOp, x.failCall, label); sc != nil {
+			rc, desc = sc, sd+fmt.Sprintf("  [shrunk from %d to %d operations]", len(c.Ops), len(sc.Ops))
+		}
+	}
+	res.Violate(desc, rc)
+	return false, x.walks, x.nontrivial
+}
+
+// shrinkDB: delta debugging on the operation list (then on the failing walk), bounded in time;
+// nil when the failure does not reproduce (timing-dependent layout)
+func shrinkDB(c *dbCase, failOp, failCall int, label string) (*dbCase, string) {
+	deadline := time.Now().Add(6 * time.Second)
+	scratch := vlib.NewResult("scratch", os.TempDir(), "")
+	try := func(ops []op) (bool, string) {
+		cand := *c
+		cand.Ops = ops
+		x, hung, pan := execDB(&cand, scratch, label, nil, 0, 0, 20*time.Second)
+		return !hung && pan == nil && x.vdesc != "" && x.walkFail, x.vdesc
+	}
+	cur := append([]op{}, c.Ops[:failOp+1]...)
+	if last := &cur[len(cur)-1]; last.T == "iter_walk" && failCall >= 0 && failCall < len(last.Moves) {
+		last.Moves = append([]move{}, last.Moves[:failCall+1]...)
+	}
+	okc, desc := try(cur)
+	if !okc {
+		return nil, ""
+	}
+	for chunk := len(cur) / 2; chunk >= 1; chunk /= 2 {
+		for i := 0; i+chunk < len(cur); {
+			if time.Now().After(deadline) {
+				goto done
+			}
+			cand := append(append([]op{}, cur[:i]...), cur[i+chunk:]...)
+			if f, d := try(cand); f {
+				cur, desc = cand, d
+			} else {
+				i += chunk
+			}
+		}
+	}
+	// the failing walk: drop moves before the last one
+	if last := cur[len(cur)-1]; last.T == "iter_walk" {
+		ms := last.Moves
+		for i := 0; i+1 < len(ms) && time.Now().Before(deadline); {
+			cm := append(append([]move{}, ms[:i]...), ms[i+1:]...)
+			cand := append([]op{}, cur...)
+			cand[len(cand)-1].Moves = cm
+			if f, d := try(cand); f {
+				ms, desc = cm, d
+				cur = cand
+			} else {
+				i++
+			}
+		}
+	}
+done:
+	out := *c
+	out.Ops = cur
+	return &out, desc
+}
+
+func firstDiff(a, b []kv) string {
+	for i := 0; i < len(a) || i < len(b); i++ {
+		var x, y string
+		if i < len(a) {
+			x = fmt.Sprintf("%x=%x", []byte(a[i].K), []byte(a[i].V))
+		} else {
+			x = "-"
+		}
+		if i < len(b) {
+			y = fmt.Sprintf("%x=%x", []byte(b[i].K), []byte(b[i].V))
+		} else {
+			y = "-"
+		}
+		if x != y {
+			return fmt.Sprintf("pair %d: DB has %s, history has %s", i, x, y)
+		}
+	}
+	return "none"
 }
